@@ -420,13 +420,84 @@ def sec_selfcheck(rep, seed):
     rep.add(Ob("C06/selfcheck/canary-strict-boundary-refuted", "canary", PROVED if REFUTED in sts else "error", "z3", 0, f"path verdicts {sts}"))
 
 
+def sec_real_runs(rep, tier):
+    """BOUNDED companions on real runs: the number of populated quark rows of the LO F2_light operator
+    (= the nf the coefficient functions used) is 3 + #{matching scales (m k)^2 <= Q2} in ZM-VFNS, for
+    threshold ratios different from 1 and Q2 below / exactly at / above every scale; NfFF at every Q2 in
+    the fixed-flavour schemes; and the operator depends on the thresholds only through that number."""
+    import numpy as np
+
+    th0 = H.base_theory()
+    masses = [th0["mc"], th0["mb"], th0["mt"]]
+    thorough = tier == "thorough"
+    ratio_sets = [(1.0, 1.0, 1.0), (0.5, 0.5, 1.0), (1.2, 1.3, 0.9)] + ([(2.0, 2.0, 2.0), (0.7, 3.0, 0.2)] if thorough else [])
+
+    def populated(orders, pids):
+        v = orders[(0, 0, 0, 0)][0]
+        return sorted(abs(p) for i, p in enumerate(pids) if 1 <= p <= 6 and float(np.max(np.abs(v[i]))) > 0)
+
+    for ks in ratio_sets:
+        scales = [float(np.power(m, 2) * np.power(k, 2)) for m, k in zip(masses, ks)]  # as the library forms them
+        q2s = []
+        for s_ in scales:
+            q2s += [float(np.nextafter(s_, 0)), s_, float(np.nextafter(s_, np.inf)), 0.7 * s_, 1.4 * s_]
+        q2s = [q for q in q2s if q > 0.5]
+        pts = [{"x": 0.1, "Q2": q} for q in q2s]
+        rep.cases += 1
+        try:
+            ops, pids = H.real_ops(dict(FNS="ZM-VFNS", NfFF=4, PTO=0, PTODIS=0, kcThr=ks[0], kbThr=ks[1], ktThr=ks[2]), dict(prDIS="EM"), ["F2_light"], pts)
+            bad = []
+            for q, o_ in zip(q2s, ops["F2_light"]):
+                want = 3 + sum(1 for s_ in scales if s_ <= q)
+                got = populated(o_, pids)
+                if got != list(range(1, want + 1)):
+                    bad.append((q, want, got))
+            ok, detail = not bad, f"{len(q2s)} virtualities around the scales {scales}; mismatches (Q2, expected nf, populated quark rows): {bad[:3]}"
+        except Exception as e:  # noqa
+            ok, detail = False, f"{type(e).__name__}: {e}"
+        o = ob_eval(f"C06/bounded/real run/ZM-VFNS thresholds k={ks}: nf(Q2) = 3 + #scales <= Q2 (below, at, above each scale)", ok, kind="bounded", detail=detail, inputs={} if ok else {"threshold_ratios": str(ks), "observed": detail}, replay={"confirmed": True, "python": "contracts.harness.real_ops(ZM-VFNS, LO, F2_light)"})
+        o.bounded = True
+        rep.add(o)
+    # fixed flavour number: NfFF at every Q2, whatever the card's ratios
+    for scheme in ("FFNS", "FONLL-FFNS") + (("FFN0",) if thorough else ()):
+        for nf_ff in (3, 4, 5):
+            if scheme.startswith("FONLL") and nf_ff == 3 and not thorough:
+                continue
+            rep.cases += 1
+            q2s = [0.8, 2.0, float(np.power(masses[0], 2)), 10.0, float(np.power(masses[1], 2) * 1.69), 40.0, 1.0e5]
+            try:
+                ops, pids = H.real_ops(dict(FNS=scheme, NfFF=nf_ff, PTO=0, PTODIS=0, kcThr=1.2, kbThr=1.3, ktThr=0.9), dict(prDIS="EM"), ["F2_light"], [{"x": 0.1, "Q2": q} for q in q2s])
+                bad = [(q, populated(o_, pids)) for q, o_ in zip(q2s, ops["F2_light"]) if populated(o_, pids) != list(range(1, nf_ff + 1))]
+                ok, detail = not bad, f"mismatches (Q2, populated quark rows): {bad[:3]}"
+            except NotImplementedError as e:
+                ok, detail = True, f"explicitly unsupported: {e}"
+            except Exception as e:  # noqa
+                ok, detail = False, f"{type(e).__name__}: {e}"
+            o = ob_eval(f"C06/bounded/real run/{scheme} NfFF={nf_ff}: {nf_ff} light flavours at every Q2 (ratios 1.2, 1.3, 0.9 in the card)", ok, kind="bounded", detail=detail, inputs={} if ok else {"scheme": scheme, "NfFF": nf_ff, "observed": detail})
+            o.bounded = True
+            rep.add(o)
+    # dependence on the thresholds only through nf: two cards with the same nf at the point agree bit for bit
+    rep.cases += 1
+    try:
+        pt = [{"x": 0.1, "Q2": 30.0}]
+        a, _ = H.real_ops(dict(FNS="ZM-VFNS", NfFF=4, PTO=1, PTODIS=1, kbThr=1.2), dict(prDIS="NC"), ["F2_light", "F3_total"], pt)   # (4.92*1.2)^2 = 34.9 > 30: nf = 4
+        b, _ = H.real_ops(dict(FNS="ZM-VFNS", NfFF=4, PTO=1, PTODIS=1, mb=6.5, kcThr=0.8), dict(prDIS="NC"), ["F2_light", "F3_total"], pt)  # 42 > 30, (1.51*.8)^2 < 30: nf = 4
+        worst = max(H.ops_deviation(a[n], b[n])[0] for n in a)
+        ok, detail = worst == 0.0, f"max relative deviation {worst:.2e}"
+    except Exception as e:  # noqa
+        ok, detail = False, f"{type(e).__name__}: {e}"
+    o = ob_eval("C06/bounded/real run/ZM-VFNS NLO: two cards with different masses and ratios but the same nf at the point give identical operators", ok, kind="bounded", detail=detail, inputs={} if ok else {"observed": detail})
+    o.bounded = True
+    rep.add(o)
+
+
 def run(rep, tier, seed, only=None):
     rep.assume(
         "eko.matchings.nf_default / numpy.searchsorted are executed (not modelled) on symbolic Q2 with the concrete walls of each scheme; for arbitrary (unsorted) walls numpy's digitize contract is assumed",
         "floats as reals: the threshold is by definition the computed double m^2*k^2, only comparisons follow",
         "Runner.__init__ is run for real (eko interpolator, Atlas); symbolic masses only in ZM-VFNS (other schemes multiply by inf thresholds)",
     )
-    for nm, f in (("update_fns", sec_update_fns), ("runner", sec_runner_atlas), ("nf", sec_nf), ("sv", sec_sv_nf), ("svhistory", sec_sv_history), ("readset", sec_readset), ("kernelnf", lambda r: sec_kernel_nf(r, tier))):
+    for nm, f in (("update_fns", sec_update_fns), ("runner", sec_runner_atlas), ("nf", sec_nf), ("sv", sec_sv_nf), ("svhistory", sec_sv_history), ("readset", sec_readset), ("kernelnf", lambda r: sec_kernel_nf(r, tier)), ("realruns", lambda r: sec_real_runs(r, tier))):
         if only and only not in nm:
             continue
         rep.add(guarded(f"C06/{nm}", lambda f=f: (f(rep), [])[1]))
